@@ -124,6 +124,25 @@ impl UninitRefMut<i64> for RecBuf {
     }
 }
 
+/// the same for any (heap-owning) element type: slots start empty
+struct RecBufG<T> {
+    slots: Vec<Option<T>>,
+    log: Vec<usize>,
+}
+impl<T> GetLen for RecBufG<T> {
+    fn len(&self) -> usize {
+        self.slots.len()
+    }
+}
+impl<T> UninitRefMut<T> for RecBufG<T> {
+    unsafe fn uset(&mut self, idx: usize, v: T) {
+        self.log.push(idx);
+        if idx < self.slots.len() {
+            self.slots[idx] = Some(v)
+        }
+    }
+}
+
 fn slot_cells(slots: &[i64]) -> Vec<Cell> {
     slots.iter().map(|v| if *v == SENT { Cell::Uninit } else { Cell::Int(*v as i128) }).collect()
 }
@@ -504,6 +523,20 @@ fn main() {
                 &format!("fn=collect_trusted_vec1 ty=f64 out={} items={:?}", name, fitems), || format!("(run_collect_trusted_f {} {})", coq_bool(raw), fl_),
                 || out_cells(guarded(|| fitems.titer().collect_trusted_vec1::<O>()), |x: f64| Cell::F(x)));
         });
+        // heap-owning, non-Copy items: a misplaced raw write or a double drop would crash or corrupt
+        let sitems: Vec<String> = items.iter().map(|x| format!("s{}", x)).collect();
+        let scell = |x: String| Cell::Int(x[1..].parse::<i64>().unwrap() as i128);
+        for_containers!(String, |O, name, raw| {
+            em.case("exact", &format!("fn=collect_trusted_vec1 ty=string out={} len={}{}", name, len, nt),
+                &format!("fn=collect_trusted_vec1 ty=string out={} items={:?}", name, sitems), || format!("(run_collect_trusted {} {})", coq_bool(raw), zl),
+                || out_cells(guarded(|| sitems.clone().collect_trusted_vec1::<O>()), scell));
+            em.case("exact", &format!("fn=collect_vec1_with_len ty=string out={} len={}{}", name, len, nt),
+                &format!("fn=collect_vec1_with_len ty=string out={} items={:?}", name, sitems), || format!("(run_collect_with_len {} {} {})", coq_bool(raw), zl, coq_nat(len)),
+                || out_cells(guarded(|| Iterator::filter(sitems.clone().into_iter(), |_| true).collect_vec1_with_len::<O>(len)), scell));
+            em.case("exact", &format!("fn=full ty=string out={} n={}{}", name, len, nt),
+                &format!("fn=full ty=string out={} n={} v=\"s7\"", name, len), || format!("(run_full_z {} {} 7)", coq_bool(raw), coq_nat(len)),
+                || out_cells(guarded(|| <O as Vec1<String>>::full(len, "s7".to_string())), scell));
+        });
     }
 
     // ============================================================ optional -> null-encoded
@@ -584,6 +617,30 @@ fn main() {
                     tres_cells(r, pulls.get())
                 });
             });
+            // String items: the Ok prefix written before the first Err is abandoned (leaked), never dropped twice
+            for_containers!(String, |O, name, raw| {
+                em.case("exact", &format!("fn=try_collect_trusted_vec1 ty=string out={} len={} nerr={} first={}{}", name, len, nerr, first, nt),
+                    &format!("fn=try_collect_trusted_vec1 ty=string out={} items={:?}", name, pat),
+                    || format!("(run_try_collect_trusted {} {})", coq_bool(raw), term_items), || {
+                    let pulls = Rc::new(StdCell::new(0usize));
+                    let p2 = pulls.clone();
+                    let it = Iterator::map(pat.clone().into_iter(), move |x| -> TResult<String> {
+                        p2.set(p2.get() + 1);
+                        match x { Ok(v) => Ok(format!("s{}", v)), Err(k) => Err(TError::IdxOut { idx: k as usize, len: 0 }) }
+                    });
+                    match guarded(AssertUnwindSafe(|| it.try_collect_trusted_vec1::<O>())) {
+                        Err(k) => vec![Cell::Panic(k)],
+                        Ok(Err(TError::IdxOut { idx, .. })) => vec![Cell::Err, Cell::Int(idx as i128), Cell::Int(pulls.get() as i128)],
+                        Ok(Err(_)) => vec![Cell::Err, Cell::Int(-1), Cell::Int(pulls.get() as i128)],
+                        Ok(Ok(o)) => {
+                            let mut c: Vec<Cell> = o.items().into_iter().map(|x| Cell::Int(x[1..].parse::<i64>().unwrap() as i128)).collect();
+                            c.push(Cell::Sep);
+                            c.push(Cell::Int(pulls.get() as i128));
+                            c
+                        }
+                    }
+                });
+            });
             em.case("exact", &format!("fn=try_collect_trusted_to_vec out=vec len={} nerr={} first={}{}", len, nerr, first, nt),
                 &format!("fn=try_collect_trusted_to_vec items={:?}", pat), || format!("(run_try_collect_trusted true {})", term_items), || {
                 let pulls = Rc::new(StdCell::new(0));
@@ -652,6 +709,22 @@ fn main() {
                     c
                 });
                 if hint == actual {
+                    // String items (the singleton is cloned into every slot)
+                    em.case("exact", &tg("rec_string", "vec_into", "write_trust_iter"), &ds("rec_string", "vec_into", "write_trust_iter"), || with_trace.clone(), || {
+                        let mut b: RecBufG<String> = RecBufG { slots: (0..len).map(|_| None).collect(), log: vec![] };
+                        let sit: Vec<String> = items.iter().map(|x| format!("s{}", x)).collect();
+                        let r = guarded(AssertUnwindSafe(|| b.write_trust_iter(sit.into_iter())));
+                        let val = |x: &String| x[1..].parse::<i64>().unwrap() as i128;
+                        let mut c = vec![status_cell(r)];
+                        // the value of a logged write is read back from the slot (each slot is written at most once)
+                        for i in &b.log {
+                            c.push(Cell::Int(*i as i128));
+                            c.push(match <[Option<String>]>::get(&b.slots, *i) { Some(Some(x)) => Cell::Int(val(x)), _ => Cell::Err });
+                        }
+                        c.push(Cell::Sep);
+                        c.extend(b.slots.iter().map(|x| match x { Some(x) => Cell::Int(val(x)), None => Cell::Uninit }));
+                        c
+                    });
                     // genuinely TrustedLen sources
                     let mut srcs: Vec<(&str, Box<dyn Fn(&mut RecBuf) -> TResult<()>>)> = vec![];
                     let it1 = items.clone();
